@@ -80,7 +80,7 @@ impl Part for C01 {
                         tag += 1;
                         let fill = if t { FILLS_ALL[(tag % 5) as usize] } else { FILLS_QUICK[(tag % 2) as usize] };
                         let mut pt_lens = LEN_BLOCK.to_vec();
-                        if t && info_len == 20 {
+                        if (t && info_len == 20) || (!t && info_len == 65 && suite.kdf == suite.kem.kdf() && mode == Mode::Base) {
                             pt_lens.extend_from_slice(&LEN_BIG);
                         }
                         let aad_lens = if t { vec![0, 1, 15, 16, 17, 64] } else { vec![0, 1, 17] };
